@@ -233,6 +233,25 @@ def run(ctx):
             continue
         pairs.append((Case("c10r%d" % k, sc, copy.deepcopy(docs), fam="ref-vs-inline"), Case("c10i%d" % k, inl, copy.deepcopy(docs), fam="ref-vs-inline")))
         k += 1
+    # a document that carries both definition blocks (the legacy one is read only when $defs is absent): same names, different content
+    both = {"type": "object", "$defs": {"Label": {"type": "string", "minLength": 2}, "Qty": {"type": "integer", "minimum": 1},
+                                        "Box": {"type": "object", "properties": {"l": {"$ref": "#/$defs/Label"}, "inner": {"$ref": "#/$defs/Box"}}, "required": ["l"]}},
+            "definitions": {"Label": {"type": "integer", "maximum": 5}, "Qty": {"type": "string"}, "OnlyLegacy": {"type": "boolean"}},
+            "properties": {"a": {"$ref": "#/$defs/Label"}, "q": {"$ref": "#/$defs/Qty"}, "ls": {"type": "array", "items": {"$ref": "#/$defs/Label"}}, "b": {"$ref": "#/$defs/Box"}}}
+    both_inl = {"type": "object", "properties": {"a": both["$defs"]["Label"], "q": both["$defs"]["Qty"], "ls": {"type": "array", "items": {"$ref": "#/$defs/L2"}},
+                                                 "b": {"type": "object", "properties": {"l": both["$defs"]["Label"], "inner": {"type": "object", "properties": {"l": both["$defs"]["Label"]}, "required": ["l"]}}, "required": ["l"]}},
+                "$defs": {"L2": both["$defs"]["Label"]}}
+    dgb = Docs(both_inl, rng)
+    docsb, seenb = [], set()
+    for _ in range(3):
+        base = dgb.valid()
+        for cls, path, d in [("valid", (), base)] + dgb.mutants(base, CLASSES):
+            key = json.dumps(d, sort_keys=True, default=str)
+            if key not in seenb and "inner" not in json.dumps(d.get("b", {}).get("inner", {}) if isinstance(d, dict) and isinstance(d.get("b"), dict) and isinstance(d["b"].get("inner"), dict) else {}):
+                seenb.add(key)
+                docsb.append({"doc": d, "cls": cls, "path": path})
+    pairs.append((Case("c10both", both, copy.deepcopy(docsb[:80]), fam="both-definition-blocks", no_model=True),
+                  Case("c10bothi", both_inl, copy.deepcopy(docsb[:80]), fam="both-definition-blocks", no_model=True)))
     for mi, (name, files, mainp, rext) in enumerate(multi_file_cases(ctx)):
         inl = inline(files[mainp], files, mainp)
         dg = Docs(inl, rng)
